@@ -77,13 +77,13 @@ def setup(ctx):
     core.attach(dv, "SAMPLER", sampler_post)
 
 
-FORMS = ["str", "list", "tuple", "ndarray", "bs", "str_sp"]
+FORMS = ["str", "list", "tuple", "ndarray", "bs", "str_sp", "nd_bool", "nd_float"]
 
 
 def render(b, form):
     v = [int(x) for x in b]
     return {"str": lambda: "".join(map(str, v)), "str_sp": lambda: " ".join(map(str, v)), "list": lambda: v, "tuple": lambda: tuple(v),
-            "ndarray": lambda: np.array(v), "bs": lambda: T.binary_sequence(v)}[form]()
+            "ndarray": lambda: np.array(v), "nd_bool": lambda: np.array(v, dtype=bool), "nd_float": lambda: np.array(v, dtype=float), "bs": lambda: T.binary_sequence(v)}[form]()
 
 
 def pick_sps(rng, i, tier):
